@@ -41,6 +41,8 @@ pub enum Op {
     DrainLendTwice(u8),
     /// create an entity; it takes over a freed index of the layout (the old handle goes stale)
     Recreate,
+    /// the same through the shared entities resource (the new entity awaits maintain)
+    RecreateDeferred,
     /// every handle-taking access through the stale handle of layout position `e`
     StaleAccess(u8),
     Clear,
@@ -521,11 +523,11 @@ impl<'c, T: Kind, U: Kind> Run<'c, T, U> {
                     exp.insrem.push(ComponentEvent::Removed(id));
                 }
             }
-            Op::Recreate => {
+            Op::Recreate | Op::RecreateDeferred => {
                 if self.alive.iter().all(|a| *a) {
                     return None;
                 }
-                let h = self.w.create_entity().build();
+                let h = if matches!(op, Op::Recreate) { self.w.create_entity().build() } else { self.w.entities().create() };
                 match self.ents.iter().position(|o| o.id() == h.id()) {
                     Some(p) if !self.alive[p] => {
                         self.stale[p] = Some(self.ents[p]);
@@ -1079,6 +1081,7 @@ impl<'c, T: Kind, U: Kind> Run<'c, T, U> {
                 let dead: Vec<usize> = (0..self.alive.len()).filter(|i| !self.alive[*i]).collect();
                 if dead == vec![0] && self.stale[0].is_none() {
                     v.push(Op::Recreate);
+                    v.push(Op::RecreateDeferred);
                 }
                 for e in 0..n {
                     if self.stale[e as usize].is_some() {
